@@ -99,6 +99,7 @@ def renderRecs (l : List (Nat × Cmd)) : String :=
 def stepLine (s : St) (line : String) : St × String :=
   match words line with
   | ["new"] => ({}, "ok")
+  | ["new", _] => ({}, "ok")     -- `new <channel capacity>`: the capacity of the outgoing byte channel is not observable
   | ["append", t, id, ow] => match t.toNat?, id.toNat? with
     | some t, some id => (doAppend s t ⟨id, ow != "0"⟩, "ok")
     | _, _ => (s, "bad-op")
@@ -147,6 +148,7 @@ def parseSent (s : String) : Option (List (Nat × Nat)) :=
 def Mon.step (m : Mon) (line : String) (out : String) : Mon × Option String :=
   match words line with
   | ["new"] => ({}, none)
+  | ["new", _] => ({}, none)
   | ["append", t, id, ow] => match t.toNat?, id.toNat? with
     | some t, some id => ({ m with appended := m.appended ++ [(t, ⟨id, ow != "0"⟩)] }, none)
     | _, _ => (m, some "unparsable")
